@@ -262,6 +262,10 @@ Files ==
    /\ PrintT(<<"COUNT", "records", Len(hist)>>)
    /\ UNCHANGED <<tid, S, step, parts, npid, born, vels, hist, closed, dead, catch>>
 
+\* spec -> code replay: the composed abstract model (MC_Ladim) predicted which identifiers each record holds
+Predicted == /\ Is("predicted")
+             /\ Mark(Check("model.records_as_predicted", Ev.got = Ev.want))
+             /\ UNCHANGED <<tid, S, pc, step, parts, npid, born, vels, hist, closed, dead, catch>>
 Crash == /\ Is("crash") /\ Mark(Check("run.crashed", FALSE))
          /\ UNCHANGED <<tid, S, pc, step, parts, npid, born, vels, hist, closed, dead, catch>>
 
@@ -271,7 +275,7 @@ Refused == /\ Is("refused")
                          Check("startup.refuses_only_invalid", NoRowInWindow(S.cfg, S.table))>>))
            /\ pc' = "done"
            /\ UNCHANGED <<tid, S, step, parts, npid, born, vels, hist, closed, dead, catch>>
-Next == Refused \/ Setup \/ Eof \/ Timer \/ TRelease \/ Force \/ Output \/ Vel \/ Move \/ Ibm \/ Close \/ Files \/ Crash
+Next == Predicted \/ Refused \/ Setup \/ Eof \/ Timer \/ TRelease \/ Force \/ Output \/ Vel \/ Move \/ Ibm \/ Close \/ Files \/ Crash
 Spec == Init /\ [][Next]_vars
 Accepted == TLCGet("stats").diameter - 1 = Len(Tr)
 =============================================================================
